@@ -10,7 +10,7 @@
 From Coq Require Import ZArith List.
 From Falcon Require Import Base.Res IL.Const IL.Expr IL.Func Exec.Sem
      Isa.A64 Isa.A64Lift Isa.A64Run Isa.A64Proofs Isa.A64Sim Isa.A64Arith Isa.A64Arith2
-     Isa.A64Branch Isa.A64Branch2 Isa.C03Check Isa.A64Tie Isa.A64Flags Isa.A64Flags2 Isa.A64Mem Isa.A64Load Isa.A64Store Isa.A64Pair Isa.A64Pair2 Isa.A64Wb Isa.A64Pair3 Isa.A64RegOff.
+     Isa.A64Branch Isa.A64Branch2 Isa.C03Check Isa.A64Tie Isa.A64Flags Isa.A64Flags2 Isa.A64Mem Isa.A64Load Isa.A64Store Isa.A64Pair Isa.A64Pair2 Isa.A64Wb Isa.A64Pair3 Isa.A64RegOff Isa.A64Shift Isa.A64Ext Isa.A64Decode.
 Import ListNotations.
 Local Open Scope Z_scope.
 
@@ -171,6 +171,59 @@ Theorem tb_sim : forall addr (b5 : bool) nz b40 imm14 rt, 0 <= b40 < 32 -> 0 <= 
   sim addr (ITB b5 nz b40 imm14 rt).
 Proof. exact A64Branch2.tb_sim. Qed.
 Print Assumptions tb_sim.
+
+(* 6. the remaining add/sub operand forms: every shift kind (LSL LSR ASR ROR), every extend (UXTB .. SXTX, amount 0..4) *)
+Theorem addsub_shift_sim_all : forall addr sf sub k rm imm6 rn rd,
+  0 <= imm6 < dsize sf -> 0 <= rm < 32 -> 0 <= rn < 32 -> 0 <= rd < 32 ->
+  sim addr (IAddSubShift sf sub false k rm imm6 rn rd).
+Proof. exact A64Shift.addsub_shift_sim_all. Qed.
+Print Assumptions addsub_shift_sim_all.
+Theorem adds_shift_sim_all : forall addr (sf : bool) k rm imm6 rn rd,
+  0 <= imm6 < dsize sf -> 0 <= rm < 32 -> 0 <= rn < 32 -> 0 <= rd < 32 ->
+  sim addr (IAddSubShift sf false true k rm imm6 rn rd).
+Proof. intros. apply sim_c_false. apply A64Shift.addsubs_shift_simc_all; assumption. Qed.
+Print Assumptions adds_shift_sim_all.
+Theorem subs_shift_sim_all_partial : forall addr (sf : bool) k rm imm6 rn rd,
+  0 <= imm6 < dsize sf -> 0 <= rm < 32 -> 0 <= rn < 32 -> 0 <= rd < 32 ->
+  sim_c true addr (IAddSubShift sf true true k rm imm6 rn rd).
+Proof. intros. apply A64Shift.addsubs_shift_simc_all; assumption. Qed.
+Print Assumptions subs_shift_sim_all_partial.
+Theorem addsub_ext_sim : forall addr sf sub k rm imm3 rn rd,
+  0 <= imm3 <= 4 -> 0 <= rm < 32 -> 0 <= rn < 32 -> 0 <= rd < 32 ->
+  sim addr (IAddSubExt sf sub false k rm imm3 rn rd).
+Proof. exact A64Ext.addsub_ext_sim. Qed.
+Print Assumptions addsub_ext_sim.
+Theorem adds_ext_sim : forall addr (sf : bool) k rm imm3 rn rd,
+  0 <= imm3 <= 4 -> 0 <= rm < 32 -> 0 <= rn < 32 -> 0 <= rd < 32 ->
+  sim addr (IAddSubExt sf false true k rm imm3 rn rd).
+Proof. intros. apply sim_c_false. apply A64Ext.addsubs_ext_simc; assumption. Qed.
+Print Assumptions adds_ext_sim.
+Theorem subs_ext_sim_partial : forall addr (sf : bool) k rm imm3 rn rd,
+  0 <= imm3 <= 4 -> 0 <= rm < 32 -> 0 <= rn < 32 -> 0 <= rd < 32 ->
+  sim_c true addr (IAddSubExt sf true true k rm imm3 rn rd).
+Proof. intros. apply A64Ext.addsubs_ext_simc; assumption. Qed.
+Print Assumptions subs_ext_sim_partial.
+
+(* 7. the decoder delivers the field ranges the theorems above assume *)
+Theorem decode_fields : forall w i, decode w = Some i -> fields_ok i.
+Proof. exact A64Decode.decode_fields. Qed.
+Print Assumptions decode_fields.
+
+(* 8. EVERY decoded form: [sim] ([sim_c true] for SUBS: everything but the polarity of C); forms the lifter
+      rejects (CMP/CMN/NEG aliases, MOVK, non-alias ORR, LDR literal) hold vacuously *)
+Theorem sim_all : forall addr i, fields_ok i -> sim_c (is_subs i) addr i.
+Proof. exact A64Decode.sim_all. Qed.
+Print Assumptions sim_all.
+
+(* 9. END TO END, for the IL the real lifter dumped: decode + syntactic tie => the run of the dumped IL is the
+      architecture's step, from every state (SUBS: with C inverted, the known finding) *)
+Theorem c03_end_to_end : forall w i addr g succs,
+  decode w = Some i -> syntactic_tie addr i g succs = true ->
+  forall s st s', wf s -> apc s = addr -> addr + 4 < 2 ^ 64 -> emb s st -> mapped st (footprint i s) ->
+    a64step i s = Done s' ->
+    exists st', run_lifted g succs st = Ok (st', apc s') /\ emb (if is_subs i then flipC s' else s') st'.
+Proof. exact A64Decode.c03_end_to_end. Qed.
+Print Assumptions c03_end_to_end.
 
 (* the hypotheses of [sim] are satisfiable: the oracle's embedding of a well-formed state *)
 Example emb_embed : forall s mapped_bytes, emb s (embed s mapped_bytes).
